@@ -348,7 +348,6 @@ def osFrom (targets : List SockAddr) (seen : List (IpAddr × Nat)) : List (Optio
     else none :: osFrom ts ((ip, p) :: more)
 
 def showBind (st : State) (bs : List Bound) (d : Dial) (ifacesTxt : String) : String :=
-  let socks := reportedSockets bs
   let back := (reportedAddrs bs).map fun m =>
     match tcpParse m with
     | .ok ⟨.ip4 i, p, none⟩ => showSock st.names ⟨.v4 i, p⟩
@@ -361,7 +360,7 @@ def showBind (st : State) (bs : List Bound) (d : Dial) (ifacesTxt : String) : St
     (match d with
      | .noReuse => "noreuse"
      | .reuse l => "reuse:[" ++ ",".intercalate (l.map (showSock st.names)) ++ "]") ++
-    " ifaces=" ++ ifacesTxt ++ (if socks.isEmpty then "" else "")
+    " ifaces=" ++ ifacesTxt
 
 def stepListener (st : State) (ts : List String) (obs : Option String) : Option (State × String) :=
   match ts with
